@@ -2586,7 +2586,7 @@ MANIFEST = {
             "abstract ordered field with the library's definitions of tan/cot/sec/csc and of real power. const_inequality_exact_sound_partial "
             "is the older statement about the exact branch in the ℚ semantics (kept; the full model is constInequalityFull). real_norm_macro_sound "
             "is stated over ℚ (the K-valued version is poly_eq_tval inside const_inequality_sound). real_eq_comparison has no Lean model: it "
-            "builds a proof term, so fixes/C05-4.patch proposes to check it by expansion (level 1), which removes it from the trusted steps; "
+            "builds a proof term, so it could be checked by expansion (level 1) instead of being trusted — a policy change for the maintainers, not a defect, hence not applied; "
             "until then it is judged by the oracle only. The model speaks about terms of the theory; goals with a constant at a non-instance "
             "of its declared type must be rejected (directed stream, fixes/C05-3). Trusted: Lean kernel, propext/Classical.choice/Quot.sound, "
             "the C10 polynomial files (imported read-only), the harness generators and wire writer, Fraction/mpmath/sympy.",
